@@ -77,7 +77,7 @@ def run(ctx):
     from dtaidistance import similarity
     rng = ctx.rng
     warnings.simplefilter("ignore")
-    N = 700 if ctx.quick else 12000
+    N = ctx.scale(8000, 80000)
     for _ in range(N):
         D, vals = gen_array(rng, np)
         method = rng.choice(["exponential", "gaussian", "reciprocal", "reverse"])
